@@ -212,6 +212,20 @@ func factsAtDepth(b *ssa.BasicBlock, depth int) []Fact {
 		}
 		p, ok := phi.(*ssa.Phi)
 		cc, ok2 := c.(*ssa.Const)
+		if ok && ok2 && cc.Value == nil && !done[p] {
+			// nil-ness: a phi whose operands are each the nil constant or surely non-nil (a fresh error, an
+			// allocation, a boxed value) was selected on the one edge compatible with the fact
+			if j := nilnessEdge(p, f.Op == token.EQL); j >= 0 && !p.Block().Dominates(p.Block().Preds[j]) {
+				done[p] = true
+				pb := p.Block()
+				pred := pb.Preds[j]
+				out = append(out, factsAtDepth(pred, depth+1)...)
+				if iff, ok := pred.Instrs[len(pred.Instrs)-1].(*ssa.If); ok && pred.Succs[0] != pred.Succs[1] {
+					out = append(out, condFacts(iff.Cond, pred.Succs[0] == pb, iff)...)
+				}
+			}
+			continue
+		}
 		if !ok || !ok2 || cc.Value == nil || done[p] {
 			continue
 		}
@@ -242,6 +256,103 @@ func factsAtDepth(b *ssa.BasicBlock, depth int) []Fact {
 		}
 	}
 	return out
+}
+
+// surelyNonNil: the value cannot be nil (a freshly made error, an allocation, a boxed concrete value, a closure).
+func surelyNonNil(v ssa.Value) bool {
+	switch x := v.(type) {
+	case *ssa.Call:
+		n := calleeName(x)
+		return n == "fmt.Errorf" || n == "errors.New"
+	case *ssa.Alloc, *ssa.MakeInterface, *ssa.MakeClosure, *ssa.MakeMap, *ssa.MakeSlice, *ssa.MakeChan:
+		return true
+	}
+	return false
+}
+
+// nilnessEdge: the single incoming edge of p compatible with "p is nil" (wantNil) or "p is not nil", when every
+// operand is either the nil constant or surely non-nil; -1 otherwise.
+func nilnessEdge(p *ssa.Phi, wantNil bool) int {
+	feasible, n := -1, 0
+	for j, e := range p.Edges {
+		switch {
+		case isNilConst(e):
+			if wantNil {
+				feasible = j
+				n++
+			}
+		case surelyNonNil(e):
+			if !wantNil {
+				feasible = j
+				n++
+			}
+		default:
+			return -1
+		}
+	}
+	if n != 1 {
+		return -1
+	}
+	return feasible
+}
+
+// resolvePhi: the operand a phi certainly holds at block b, when the facts at b select the incoming edge of a sibling
+// phi of the same block (two results of an inlined helper merged together: knowing `err == nil` tells which value the
+// other one is). Applied repeatedly; returns v itself when nothing is known.
+func resolvePhi(v ssa.Value, b *ssa.BasicBlock) ssa.Value {
+	for depth := 0; depth < 4; depth++ {
+		p, ok := v.(*ssa.Phi)
+		if !ok {
+			return v
+		}
+		pb := p.Block()
+		if !pb.Dominates(b) {
+			return v
+		}
+		edge := -1
+		for _, f := range factsAt(b) {
+			if f.Y == nil || (f.Op != token.EQL && f.Op != token.NEQ) {
+				continue
+			}
+			x, y := f.X, f.Y
+			if _, isPhi := x.(*ssa.Phi); !isPhi {
+				x, y = y, x
+			}
+			q, ok := x.(*ssa.Phi)
+			if !ok || q.Block() != pb {
+				continue
+			}
+			if isNilConst(y) {
+				if j := nilnessEdge(q, f.Op == token.EQL); j >= 0 {
+					edge = j
+				}
+				continue
+			}
+			if c, ok := y.(*ssa.Const); ok && c.Value != nil {
+				feasible, n := -1, 0
+				allConst := true
+				for j, e := range q.Edges {
+					ec, isC := e.(*ssa.Const)
+					if !isC || ec.Value == nil {
+						allConst = false
+						break
+					}
+					if constant.Compare(ec.Value, token.EQL, c.Value) == (f.Op == token.EQL) {
+						feasible = j
+						n++
+					}
+				}
+				if allConst && n == 1 {
+					edge = feasible
+				}
+			}
+		}
+		if edge < 0 || pb.Dominates(pb.Preds[edge]) {
+			return v
+		}
+		v = p.Edges[edge]
+	}
+	return v
 }
 
 func factsAtDirect(b *ssa.BasicBlock) []Fact {
